@@ -50,7 +50,7 @@ func (state *RuntimeState) Okta2FAuthHandler(w http.ResponseWriter, r *http.Requ
 	// TODO ADD okta events to eventmond
 	//eventNotifier.PublishVIPAuthEvent(eventmon.VIPAuthTypeOTP, authUser)
 
-	_, err = state.updateAuthCookieAuthlevel(w, r, currentAuthLevel|AuthTypeOkta2FA)
+	_, err = state.updateAuthCookieAuthlevel(w, r, authUser, currentAuthLevel|AuthTypeOkta2FA)
 	if err != nil {
 		logger.Printf("Auth Cookie NOT found ? %s", err)
 		state.writeFailureResponse(w, r, http.StatusInternalServerError, "Failure when validating Okta MFA token")
@@ -154,7 +154,7 @@ func (state *RuntimeState) oktaPollCheckHandler(w http.ResponseWriter, r *http.R
 	case okta.PushResponseApproved:
 		// TODO: add notification on eventmond
 		metricLogAuthOperation(getClientType(r), proto.AuthTypeOkta2FA, true)
-		_, err = state.updateAuthCookieAuthlevel(w, r,
+		_, err = state.updateAuthCookieAuthlevel(w, r, authData.Username,
 			authData.AuthType|AuthTypeOkta2FA)
 		if err != nil {
 			logger.Printf("Auth Cookie NOT found ? %s", err)
